@@ -16,9 +16,12 @@ let c13_three (line : string) : string =
     let asts = List.filteri (fun i _ -> i > k && i <= 2 * k) rest in
     let moved = List.nth rest (2 * k + 1) in
     let cfg = cfg_of cfg in
-    let a = show cfg (List.map Lib_ast.document_of_string asts) in
+    let docs = List.map Lib_ast.document_of_string asts in
+    let a = show cfg docs in
     let c = if moved = "-" then "-" else show cfg [Lib_ast.document_of_string moved] in
-    "A: " ^ a ^ " C: " ^ c
+    (* hypothesis bi_doc_ok of C13_extension_commutes on what the parser produced *)
+    let docok = List.for_all bi_doc_ok docs in
+    "docok=" ^ (if docok then "1" else "0") ^ " A: " ^ a ^ " C: " ^ c
   | _ -> failwith "c13_three line"
 
 let families = [ ("c13_three", c13_three); ("c13_exec", fun _ -> "-") ]
